@@ -392,3 +392,89 @@ func c14AddDel(c *core.Ctx) {
 		}
 	}
 }
+
+func init() {
+	addRule("C14", &core.Rule{ID: "C14.compose", Floor: 6, Run: c14Compose,
+		Doc: "hdlr.compose records the changed object's link name under the handler's resource kind: the name is the handler's name function of the object when it has one (EndpointSlice -> service name) else the object name, prefixed with `namespace/` exactly when the object is namespaced; the kind's list is extended (deduplicated) and stored back under the same kind. notify raises NeedFullSync exactly for `full` handlers and enqueues with that flag."})
+	addRule("C01", &core.Rule{ID: "C01.compose", Floor: 6, Run: c14Compose, Doc: "Shared with C14: the names in ChangedObjects.Links are the keys QueryLinks starts from."})
+}
+
+func c14Compose(c *core.Ctx) {
+	fn := c.Fn("controller/reconciler", "hdlr.compose")
+	if fn == nil {
+		return
+	}
+	n := 0
+	for _, b := range fn.Blocks {
+		for _, in := range b.Instrs {
+			mu, ok := in.(*ssa.MapUpdate)
+			if !ok || !strings.HasSuffix(core.Key(mu.Map), ".Links") {
+				continue
+			}
+			n++
+			c.Check(strings.HasSuffix(core.Key(mu.Key), "h.res"), "compose stores the link list under the handler's kind", at(c, mu), "", "key is "+core.Key(mu.Key))
+			call, isCall := mu.Value.(*ssa.Call)
+			if !isCall || !strings.HasSuffix(core.CalleeName(&call.Call), "reconciler.appenddedup") {
+				c.Violated("compose extends the kind's list without duplicates", at(c, mu), "stored value is "+core.Key(mu.Value))
+				continue
+			}
+			a := call.Call.Args
+			c.Check(strings.Contains(core.Key(a[0]), ".Links[") && strings.HasSuffix(core.Key(a[0]), "h.res]"), "compose extends the list of the same kind", at(c, call), "", "extended list is "+core.Key(a[0]))
+			// the name: phi{ns + "/" + base, base} with base = phi{h.name(obj), obj.GetName()}
+			name, isPhi := a[1].(*ssa.Phi)
+			okNS, okBase := false, false
+			if isPhi {
+				for i, e := range name.Edges {
+					k := core.Key(e)
+					if strings.Contains(k, `GetNamespace() + "/")`) || strings.Contains(k, `.GetNamespace() + "/"`) {
+						// on the ns != "" branch
+						for _, g := range core.ControllingEdges(name.Block().Preds[i]) {
+							if strings.Contains(core.Key(g.If.Cond), `GetNamespace() != "")`) && g.Branch {
+								okNS = true
+							}
+						}
+						if name.Block().Preds[i] != nil && !okNS {
+							// the then-block itself is the predecessor
+							for _, g := range core.ControllingEdges(name.Block().Preds[i]) {
+								_ = g
+							}
+						}
+					}
+					if bp, isB := e.(*ssa.Phi); isB {
+						var ks []string
+						for j, be := range bp.Edges {
+							bk := core.Key(be)
+							ks = append(ks, bk)
+							if strings.Contains(bk, "h.name(obj)") {
+								for _, g := range core.ControllingEdges(bp.Block().Preds[j]) {
+									if strings.Contains(core.Key(g.If.Cond), "h.name != nil)") && g.Branch {
+										okBase = true
+									}
+								}
+							}
+						}
+						if !strings.Contains(strings.Join(ks, "|"), "GetName()") {
+							okBase = false
+						}
+					}
+				}
+			}
+			c.Check(okBase, "compose names the object by the handler's name function, else by its name", at(c, call), "", "base name is not `h.name != nil ? h.name(obj) : obj.GetName()`: "+core.Key(a[1]))
+			c.Check(okNS, "compose prefixes the namespace of namespaced objects", at(c, call), "", "the `ns/` prefix is not applied exactly under ns != \"\": "+core.Key(a[1]))
+		}
+	}
+	c.Check(n == 1, "compose records one link", c.Pos(fn.Pos()), "", fmt.Sprint(n))
+	if nf := c.Fn("controller/reconciler", "hdlr.notify"); nf != nil {
+		for _, st := range fieldStores(nf, false, "converters/types.ChangedObjects", "NeedFullSync") {
+			c.Check(core.IsConstBool(st.Val, true) && guardedBy(st, has("h.full"), true), "notify raises NeedFullSync exactly for full handlers", at(c, st), "", "NeedFullSync is stored as "+core.Key(st.Val)+" outside the h.full branch")
+		}
+		ok := false
+		for _, s := range core.Calls(nf, false) {
+			if s.Common().IsInvoke() && s.Common().Method.Name() == "AddRateLimited" {
+				l := sliceLeaves(c.Env, s.Common().Args[0], 0)
+				ok = leavesContain(l, "h.full") && len(guardsOf(s.Instr)) == 0
+			}
+		}
+		c.Check(ok, "notify always enqueues, with the handler's full flag", c.Pos(nf.Pos()), "", "AddRateLimited is conditional or does not carry h.full")
+	}
+}
